@@ -88,6 +88,13 @@ def job(args):
                 recs.append({"fen": fen, "opts": opts, "error": str(e)[:300], "pre": pre, "history": list(hist)}); return recs
             recs.append({"fen": fen, "opts": opts, "expect": expect, "value": val, "out": out, "pre": pre, "history": list(hist)})
             hist.append([fen, pre])
+            if len(it) > 4 and it[4]:
+                # the table is resident now: a short timed search of the same root must still answer from it
+                try:
+                    out2 = eng.go(f"position fen {fen}", "go movetime 1200", timeout=60)
+                except (uci.EngineDied, TimeoutError) as e:
+                    recs.append({"fen": fen, "opts": opts, "error": "timed search: " + str(e)[:300], "pre": "timed", "history": list(hist)}); return recs
+                recs.append({"fen": fen, "opts": opts, "expect": expect, "value": val, "out": out2, "pre": "timed", "history": list(hist)})
         eng.quit()
     finally:
         eng.kill()
@@ -106,11 +113,15 @@ def run(ctx):
     vlib.net_file(bdir, "material", 1)
     if ctx.replay:
         rp = ctx.replay["replay"]
-        items = [(f, "nomate", "draw", pre) for f, pre in rp.get("history", [])] + [(rp["fen"], rp.get("expect", "nomate"), rp.get("value", "draw"), rp.get("pre", ""))]
+        if rp.get("pre") == "timed":
+            h = rp.get("history", [])
+            items = [(f, "nomate", "draw", pre) for f, pre in h[:-1]] + [(rp["fen"], rp.get("expect", "nomate"), rp.get("value", "draw"), h[-1][1] if h else "", True)]
+        else:
+            items = [(f, "nomate", "draw", pre) for f, pre in rp.get("history", [])] + [(rp["fen"], rp.get("expect", "nomate"), rp.get("value", "draw"), rp.get("pre", ""))]
         recs = job((rp.get("opts", {}), items))
         for x in recs[-1:]: print(x.get("out", x)[-3:] if "out" in x else x)
         ctx.count(1); ctx.distinct("a"); ctx.distinct("b")
-        audit(ctx, vh, recs[-1:] if len(recs) == len(items) else [x for x in recs if "error" in x])
+        audit(ctx, vh, recs[-1:] if len(recs) >= len(items) else [x for x in recs if "error" in x])
         xlate.report(ctx, xr)
         return
     # on-demand probe kernel: model vs Python re-evaluation of the property's wording on a grid
@@ -157,7 +168,7 @@ def run(ctx):
             pre = r.choice(["", "", "", "", "ucinewgame", "setoption name Clear Hash"]) if items else ""
             if items and len(cls) == 2 and r.random() < 0.3:
                 pre = f"abort {r.choice([0.3, 0.5, 0.7, 0.85, 1.0, 1.2])} {r.choice(ABORT_ROOTS)}"
-            items.append((f, e, v, pre))
+            items.append((f, e, v, pre, r.random() < 0.25))
             stats["positions"] += 1; stats["won"] += v.startswith("win"); stats["lost"] += v.startswith("loss"); stats["drawn"] += v == "draw"
             stats["mate_outside_50_move_window"] += (v != "draw" and e == "nomate")
         sessions.append((optsets[ci % len(optsets)], items))
